@@ -48,12 +48,14 @@ def dictify_all_complex_values(data):
         return [dictify_all_complex_values(value) for value in data]
     return data
 
-def undictify_all_complex_values(data: dict) -> dict:
+def undictify_all_complex_values(data):
+    if isinstance(data, list):
+        return [undictify_complex_values({'element': undictify_all_complex_values(v)})['element'] for v in data]
+    if not isinstance(data, dict):
+        return data
     for key, value in data.items():
-        if isinstance(value, dict):
+        if isinstance(value, dict) or isinstance(value, list):
             data[key] = undictify_all_complex_values(value)
-        if isinstance(value, list):
-            data[key] = [undictify_all_complex_values(v) for v in value]
     return undictify_complex_values(data)
 
 def serialize(data: T, format: str, dict_processor: Callable[[T], dict] = dictify_all_complex_values) -> str:
